@@ -129,6 +129,9 @@ def generate_contract(task):
     return out
 
 
+COSTS = {}
+
+
 def discharge_contracts(rep: Report, modname, n_contracts, timeout_ms, jobs=None):
     """generate (one process per contract) and discharge all obligations of the contracts of `modname` (or of a list of
     (modname, count) pairs) that carry rep.pid; fills rep; returns {obligation name: [failed atom queries]}"""
@@ -139,6 +142,7 @@ def discharge_contracts(rep: Report, modname, n_contracts, timeout_ms, jobs=None
         rep.extra["euclid_lemma_proved"] = True
     pairs = modname if isinstance(modname, list) else [(modname, n_contracts)]
     tasks = [(mn, i, rep.repo, rep.pid) for mn, cnt in pairs for i in range(cnt)]
+    tasks.sort(key=lambda t: -COSTS.get((t[0], t[1]), 1))  # longest generation first (contracts may carry a relative `cost` hint): shorter makespan on the pool
     jobs_n = jobs or min(16, os.cpu_count() or 4)
     if len(tasks) == 1 or jobs_n == 1:
         gen = [generate_contract(t) for t in tasks]
@@ -161,6 +165,18 @@ def discharge_contracts(rep: Report, modname, n_contracts, timeout_ms, jobs=None
     # the solve phase takes well under two minutes on the unchanged tree; the wall-clock budget only bounds the time spent when a change makes
     # many obligations fail at once (each would otherwise run every stage to its timeout): what is cut off is reported as undecided
     D.run_queries(all_obs, jobs=jobs, timeout_ms=timeout_ms, thorough=(rep.tier == "thorough"), seed=rep.seed, budget_s=(300 if rep.tier == "quick" else 1800))
+    # second opinion for time-outs: an obligation query that ended `unknown` (every stage ran out of time, or the phase deadline cut it off)
+    # says nothing about the code -- on a loaded machine it happens to queries that normally take 10..20 s.  Such queries are run once
+    # more, after the pool has drained, with three times the per-query budget; only what is still undecided then is reported (as
+    # undecided, never as a violation).  Not attempted when many queries are open at once (a change that breaks many obligations).
+    again = [q for q in all_obs if getattr(q, "kind", "ob") == "ob" and q.verdict == "unknown"]
+    if 0 < len(again) <= 48:
+        first = {id(q): q.secs for q in again}
+        D.run_queries(again, jobs=jobs, timeout_ms=3 * timeout_ms, thorough=(rep.tier == "thorough"), seed=rep.seed, budget_s=(400 if rep.tier == "quick" else 1800))
+        for q in again:
+            q.secs += first[id(q)]
+        rep.notes.append(f"{len(again)} atomic queries timed out in the first pass and were re-run alone with a {3 * timeout_ms // 1000} s budget: "
+                         f"{sum(1 for q in again if q.verdict == 'unsat')} discharged, {sum(1 for q in again if q.verdict == 'sat')} refuted, {sum(1 for q in again if q.verdict == 'unknown')} still open")
     rep.extra["solve_wall_s"] = round(time.time() - t_solve, 1)
     rep.n_queries += len(all_obs)
     failed = {}
@@ -220,6 +236,27 @@ def finish(rep: Report, level="proof", technique=""):
     if n_ob == 0 and not rep.bounded and level == "proof" and code == 0:
         rep.errors.append("zero obligations")
         code = 3
+    try:  # report every alpha-renaming of locals performed by find_function on the functions under contract (pyvc/alpha.py)
+        from . import alpha
+        from .engine import find_function
+
+        for fq in sorted({f["function"] for f in rep.functions}):
+            file, _, qual = fq.partition(":")
+            if file.endswith(".py") and qual and " " not in qual.split("(")[0].strip():
+                try:
+                    find_function(rep.repo, file, qual.split("(")[0].strip())
+                except Exception:
+                    pass
+            elif file.endswith(".py") and qual:
+                try:
+                    find_function(rep.repo, file, qual.split()[0].strip(" ,("))
+                except Exception:
+                    pass
+        for n in alpha.NOTES:
+            if n not in rep.notes:
+                rep.notes.append(n)
+    except Exception:
+        pass
     samples = rep.samples[:]
     for name, o in list(rep.obligations.items())[:6]:
         samples.append({"obligation": name, "verdict": o["verdict"], "atomic_queries": o["atoms"], "solver_ms": o["ms"], "source_line": o["line"]})
@@ -229,6 +266,7 @@ def finish(rep: Report, level="proof", technique=""):
         "trusted_base": rep.trusted + rep.assumptions,
         "samples": samples or [{"note": "no obligations"}],
         "functions_under_contract": rep.functions,
+        "distinct_functions_under_contract": sorted({f["function"] for f in rep.functions}),
         "atomic_queries": rep.n_queries, "solver_time_s": round(rep.solver_time, 2),
         "per_obligation": {k: {"verdict": v["verdict"], "atoms": v["atoms"], "ms": v["ms"], "backends": sorted(x for x in v["backends"] if x),
                                "stages": sorted(x for x in v["stages"] if x), "line": v["line"]} for k, v in rep.obligations.items()},
@@ -251,7 +289,7 @@ def finish(rep: Report, level="proof", technique=""):
     os.makedirs(ev_dir, exist_ok=True)
     with open(os.path.join(ev_dir, f"{rep.pid}.json"), "w") as f:
         json.dump(ev, f, indent=1, default=str)
-    print(f"[{rep.pid}] tier={rep.tier} functions={len(rep.functions)} obligations={n_ob} discharged={n_dis} queries={rep.n_queries} "
+    print(f"[{rep.pid}] tier={rep.tier} contracts={len(rep.functions)} functions={len({f['function'] for f in rep.functions})} obligations={n_ob} discharged={n_dis} queries={rep.n_queries} "
           f"solver={rep.solver_time:.1f}s wall={time.time() - rep.t0:.1f}s bounded_blocks={len(rep.bounded)}")
     for k in rep.known:
         print(f"KNOWN-FINDING: property={rep.pid} {k}")
@@ -266,6 +304,39 @@ def finish(rep: Report, level="proof", technique=""):
         if text:
             print("   ", text)
     return code
+
+
+def class_state_obligations(rep: Report, ledger):
+    """one frame obligation per class that owns a function under contract (sidecar contracts and fragment contracts alike): the class
+    keeps no mutable container at class level that its instances mutate (pyvc/model.py: shared_class_state).  Syntactic, decided by
+    inspection of the class body; generated for every class on every run, so it is in the ledger while it holds."""
+    from .model import shared_class_state
+
+    import ast
+
+    files = []
+    for f in list(rep.functions):
+        file = f.get("function", "").partition(":")[0]
+        if file.endswith(".py") and file not in files and os.path.exists(os.path.join(rep.repo, file)):
+            files.append(file)
+    todo = []
+    for file in files:  # every class of every file that has a function under contract: the classes of one parser cooperate
+        try:
+            tree = ast.parse(open(os.path.join(rep.repo, file)).read())
+        except (OSError, SyntaxError):
+            continue
+        todo += [(file, n.name) for n in tree.body if isinstance(n, ast.ClassDef)]
+    for file, cls in todo:
+        try:
+            shared = shared_class_state(rep.repo, file, cls + ".x")
+        except (OSError, SyntaxError):
+            continue
+        name = f"{os.path.basename(file)[:-3]}:{cls}/frame.no_mutable_state_shared_between_instances"
+        rep.obligations[name] = {"verdict": "discharged" if not shared else "undischarged", "atoms": 1, "ms": 0, "backends": {"set-inclusion"}, "stages": set(), "line": 0, "props": [rep.pid]}
+        if shared:
+            text = "class-level mutable container mutated through instances and never rebound per instance: " + ", ".join(shared)
+            p = write_replay(rep.pid, name, {"property": rep.pid, "obligation": name, "verifier_output": text})
+            rep.violations.append((p, f"{name}: {text}", True))
 
 
 def write_replay(pid, name, record):
@@ -303,7 +374,11 @@ def triage(rep: Report, failed, replay_fn, ledger, known):
             continue
         base = name
         cut_off = all(q.detail == "solve-phase deadline reached" for q in qs)
-        if cut_off:
+        timed_out = not cut_off and all(q.verdict == "unknown" for q in qs)
+        if timed_out:
+            # every failing atom is a time-out (also after the second pass): the solver gave no reason -- undecided, whatever the ledger says
+            rep.undischarged.append(f"{name} line {cand.line}: solver time-out at stage {cand.stage} (no verdict)")
+        elif cut_off:
             # never examined to the end (wall-clock budget of the solve phase): undecided, whatever the ledger says
             rep.undischarged.append(f"{name} line {cand.line}: not examined, solve-phase deadline reached")
         elif ledger.get(base, {}).get("verdict") == "discharged":
